@@ -60,22 +60,21 @@ ASSUMPTIONS = [
     "complex mode: antilinear in argument number 0, linear in every other argument",
     "the events inside compute_form_data are observed by rebinding the name check_integrand_arity in ufl.algorithms.formdata",
 ]
-BUDGET = {"quick": 40, "thorough": 400}
-NCASES = {"quick": 4000, "thorough": 40000}
+BUDGET = {"quick": 32, "thorough": 400}
+NCASES = {"quick": 2400, "thorough": 30000}
 CASE_TIMEOUT = 30.0
 EVAL_COUNTER = "events"
+# floors: about 35% of what a complete run on a quiet machine observes (the machine is shared, runs may be time-truncated)
 FLOORS = {
-    "quick": {"accepted_held": 500, "direct_accepted_held": 250, "cfd_accepted_held": 200, "nontrivial": 400, "lin_tests": 600,
-              "rejected": 300, "complex_accepted_held": 120, "hostile_accepted_held": 120},
-    "thorough": {"accepted_held": 8000, "direct_accepted_held": 4000, "cfd_accepted_held": 3000, "nontrivial": 6000, "lin_tests": 9000,
-                 "rejected": 5000, "complex_accepted_held": 2000, "hostile_accepted_held": 2000},
+    "quick": {"accepted_held": 600, "direct_accepted_held": 290, "cfd_accepted_held": 310, "nontrivial": 560, "lin_tests": 900,
+              "rejected": 670, "complex_accepted_held": 270, "hostile_accepted_held": 400},
+    "thorough": {"accepted_held": 7600, "direct_accepted_held": 3600, "cfd_accepted_held": 3900, "nontrivial": 7000, "lin_tests": 11300,
+                 "rejected": 8400, "complex_accepted_held": 3400, "hostile_accepted_held": 5000},
 }
-COVER_FLOORS = {
-    "quick": {"events_held": ["direct", "compute_form_data"], "itypes_held": ["cell", "exterior_facet", "interior_facet"],
-              "kinds_held": ["valid", "template", "mutate", "anywhere"]},
-    "thorough": {"events_held": ["direct", "compute_form_data"], "itypes_held": ["cell", "exterior_facet", "interior_facet"],
-                 "kinds_held": ["valid", "template", "mutate", "anywhere"]},
-}
+_COVER = {"events_held": ["direct", "compute_form_data"], "itypes_held": ["cell", "exterior_facet", "interior_facet"],
+          "kinds_held": ["valid", "template", "mutate", "anywhere"],
+          "templates_rejected": ["alg:sum-affine", "alg:square", "alg:div-by-arg", "alg:math", "cond:cond-affine", "alg:sum-test-plus-trial"]}
+COVER_FLOORS = {"quick": _COVER, "thorough": _COVER}
 CELLS = [("interval", 1), ("triangle", 2), ("triangle", 2), ("triangle", 3), ("tetrahedron", 3)]
 KINDS = ["template", "valid", "template", "mutate", "template", "anywhere", "template", "valid", "mutate", "anywhere"]
 
@@ -283,7 +282,24 @@ def make_worlds(rng, cell, gdim, itype, cplx, n=3):
     return [World(rng, cell, gdim, itype, cplx, conforming=True) for _ in range(n)]
 
 
+def _contradicted(fin, fout, worlds):
+    """True when some world shows a 50-digit confirmed disagreement (used only to name the mechanism)."""
+    for w in worlds:
+        v = oracle.compare_once(fin, fout, w)
+        if v.kind == "disagree" and v.why == "confirmed-at-50-digits":
+            return True
+    return False
+
+
 def localise(rng, I, members, args, cplx, worlds, mode):
+    """First in the world where the disagreement was seen, then (rare numeric coincidences) in the others."""
+    name = _localise(rng, I, members, args, cplx, worlds[:1], mode)
+    if name == "toplevel" and len(worlds) > 1:
+        name = _localise(rng, I, members, args, cplx, worlds[1:], mode)
+    return name
+
+
+def _localise(rng, I, members, args, cplx, worlds, mode):
     """Class of the smallest sub-expression whose behaviour in `members` contradicts what the real ArityChecker
     says about it ('toplevel' when every node rule is consistent and only the final comparison is not)."""
     mem = set(members)
@@ -295,25 +311,25 @@ def localise(rng, I, members, args, cplx, worlds, mode):
             continue
         try:
             claim = map_expr_dag(ArityChecker(tuple(args)), sub, compress=False)
-        except BaseException:
+        except BaseException as ex:
+            if isinstance(ex, (KeyboardInterrupt, SystemExit)) or type(ex).__name__ == "CaseTimeout":
+                raise
             continue
         flags = {bool(c) for a, c in claim if a in mem}
         t = GroupTest(rng, sub, [m for m in members if m in occ], cplx, mode, side)
         try:
             if not flags:
-                verdict, _ = run_samples(t.zero_in, t.dep_out, worlds[:2])
-                if verdict == "violated":
+                # the checker says `sub` does not depend on the argument: compare sub[a := p] with sub[a := 0]
+                if _contradicted(t.zero_in, t.dep_out, worlds):
                     return type(sub).__name__
                 continue
             if len(flags) > 1:
                 continue
             anti = cplx and flags.pop()
-            v0, _ = run_samples(t.zero_in, t.zero_out, worlds[:2])
-            v1, _ = run_samples(t.lin_in, t.lin_out(anti), worlds[:2])
+            if _contradicted(t.zero_in, t.zero_out, worlds) or _contradicted(t.lin_in, t.lin_out(anti), worlds):
+                return type(sub).__name__
         except Exception:
             continue
-        if "violated" in (v0, v1):
-            return type(sub).__name__
     return "toplevel"
 
 
@@ -367,8 +383,11 @@ def _judge(ctx, rng, event, I, args, cplx, cell, gdim, itype, info):
         anti = cplx and number == 0
         vz, sz = run_samples(t.zero_in, t.zero_out, worlds)
         ctx.count("zero_tests")
-        vl, sl = run_samples(t.lin_in, t.lin_out(anti), worlds)
-        ctx.count("lin_tests")
+        if vz == "violated":
+            vl, sl = "not-run", []  # already affine; the additivity test would only cost 50-digit evaluations
+        else:
+            vl, sl = run_samples(t.lin_in, t.lin_out(anti), worlds)
+            ctx.count("lin_tests")
         for v in sz + sl:
             ctx.count("sample_" + v.kind)
             if v.kind in ("inconclusive", "skipped") and v.why:
@@ -398,8 +417,11 @@ def _judge(ctx, rng, event, I, args, cplx, cell, gdim, itype, info):
                     if vo == "held":
                         failure = "wrong-conjugation"
                         what = f"I is {'linear' if anti else 'conjugate-linear'} in argument {number}, must be {'conjugate-linear' if anti else 'linear'}"
+            # name the mechanism in the world where the disagreement was seen
+            where = sz if vz == "violated" else sl
+            wbad = worlds[next(k for k, x in enumerate(where) if x.kind == "disagree")]
             try:
-                culprit = localise(rng, I, members, args, cplx, worlds, mode)
+                culprit = localise(rng, I, members, args, cplx, [wbad] + [x for x in worlds if x is not wbad], mode)
             except Exception as ex:  # localisation is only for naming the mechanism
                 culprit = "unlocalised"
                 ctx.count("localise_error")
@@ -408,7 +430,7 @@ def _judge(ctx, rng, event, I, args, cplx, cell, gdim, itype, info):
                 f"C14/{event}/{failure}/{culprit}",
                 f"accepted integrand is not multilinear: {what} (rel. err {bad.err}, {bad.why}); smallest contradicting node: {culprit}",
                 dict(info, integrand=safe_str(I, 1500), arguments=[str(a) for a in args], complex_mode=cplx, alpha=str(t.alpha), beta=str(t.beta),
-                     world=worlds[0].describe()),
+                     world=wbad.describe()),
             )
             return "violated", nontrivial
         verdicts += [vz, vl]
@@ -464,8 +486,11 @@ def build(rng, i):
             m = m + "+" + m2
         desc = "mutate:" + m
     else:
-        e, offered = W.anywhere(b, rng.choice([1, 2, 2, 3]))
-        occ = arguments_in(e)
+        for _ in range(4):
+            e, offered = W.anywhere(b, rng.choice([1, 2, 2, 3]))
+            occ = arguments_in(e)
+            if occ:
+                break
         r = rng.random()
         if r < 0.75:
             args = tuple(sorted(occ, key=lambda a: (a.number(), str(a.part()))))
